@@ -76,6 +76,7 @@ type Sched struct {
 	Fail     bool // failure injection enabled (MaybeFail points become choices)
 	failed   bool
 	localSync bool
+	afterRecv bool
 	lastID    int
 	keep      []any
 	OnQuiesce func() // optional: called at every scheduling decision (state hashing hooks)
@@ -121,11 +122,16 @@ type Options struct {
 	// preemption point (partial-order reduction); explicit Points, locks, spawns and every
 	// blocking operation still are.
 	LocalSync bool
+	// AfterRecv: a thread may be descheduled between completing a channel receive and running the
+	// code that follows (a worker that took a task before it starts on it).  With points only BEFORE
+	// synchronisation operations that code runs atomically with the receive, which is sound for
+	// data-race-free programs only; with AfterRecv a second point follows every completed receive.
+	AfterRecv bool
 }
 
 // Run executes body as thread 0 under the scheduler, with all choices drawn from x.
 func Run(x *vh.Ctx, o Options, body func()) *Result {
-	s := &Sched{x: x, mode: o.Mode, parked: make(chan struct{}, 1), closed: map[uintptr]bool{}, horizon: o.Horizon, Fail: o.Fail, localSync: o.LocalSync}
+	s := &Sched{x: x, mode: o.Mode, parked: make(chan struct{}, 1), closed: map[uintptr]bool{}, horizon: o.Horizon, Fail: o.Fail, localSync: o.LocalSync, afterRecv: o.AfterRecv}
 	if s.horizon == 0 {
 		s.horizon = 100000
 	}
@@ -401,6 +407,9 @@ func Recv2[T any](ch <-chan T) (T, bool) {
 	}
 	s.park(t, &op{kind: "recv", label: fmt.Sprintf("recv %x", chanID(ch)&0xffff), enabled: recvEnabled(s, ch)})
 	v, ok := <-ch
+	if s.afterRecv && ok {
+		s.park(t, &op{kind: "point", label: "after-recv", enabled: func() bool { return true }})
+	}
 	return v, ok
 }
 
